@@ -119,7 +119,7 @@ func TestMain(m *testing.M) {
 }
 
 var rfcBehaviours = []tsa.Behaviour{tsa.Valid, tsa.Valid, tsa.Valid, tsa.GrantedWithMods, tsa.WrongNonce, tsa.OmitNonce, tsa.WrongImprint, tsa.WrongImprintAlg,
-	tsa.StatusRejection, tsa.RejectionWithToken, tsa.StatusWaiting, tsa.GrantedNoToken, tsa.BadTokenSignature, tsa.HTTP500, tsa.Garbage, tsa.Truncated, tsa.WrongContentType}
+	tsa.StatusRejection, tsa.RejectionWithToken, tsa.StatusWaiting, tsa.GrantedNoToken, tsa.BadTokenSignature, tsa.AttrsSignedSorted, tsa.ContentSwapped, tsa.HTTP500, tsa.Garbage, tsa.Truncated, tsa.WrongContentType}
 var msBehaviours = []tsa.Behaviour{tsa.MSValid, tsa.MSValid, tsa.MSWrongContent, tsa.MSBadSignature, tsa.MSGarbage, tsa.MSHTTP500}
 
 // acceptable per the property statement: granted, nonce echoed, imprint equal, token correctly signed
